@@ -218,6 +218,14 @@ fn check_pair(v: &V, w: &V, form: &str, acc: &mut Acc) {
                     }
                 }
             }
+            // null is not an ordered type either; the tool orders it explicitly (null <= null and null >= null hold)
+            if matches!(v, V::Null) {
+                for n in ["plt", "ple", "pgt", "pge"] {
+                    if pass(n) {
+                        bad("null-is-ordered", format!("{} PASSes for null against null", n));
+                    }
+                }
+            }
         }
     }
     // maps: == by key set and values irrespective of key order; maps are unordered
